@@ -27,10 +27,10 @@ K_LEAK_ERR = 'CompoundParserSimple return 0 without free xraylib-parser.c:45-319
 K_LEAK_GRP = 'CompoundParserSimple tempBracketAtoms not freed when ca is empty xraylib-parser.c:283-289'
 
 # theorems that must exist (and be axiom-clean) in Props/C07.lean, and the non-vacuity witnesses checked by name
-REQUIRED_THEOREMS = ['parse_print', 'parse_reorder', 'parse_expand_group', 'parse_rejects_outside_alphabet',
-                     'parse_rejects_unbalanced', 'parse_rejects_invalid', 'parse_rejects_weightless_partial',
-                     'parse_rejects_weightless_full_fails', 'locale_restored_partial', 'locale_restored_full_fails',
-                     'add_compound_spec']
+REQUIRED_THEOREMS = ['parse_print_counts', 'parse_print', 'parse_reorder', 'parse_expand_group',
+                     'parse_rejects_outside_alphabet', 'parse_rejects_unbalanced', 'parse_rejects_invalid',
+                     'parse_accepts_weightless', 'parse_rejects_full_fails',
+                     'locale_after_call', 'locale_restored_partial', 'locale_restored_full_fails', 'add_compound_spec']
 
 SEEDS = ['H2O', 'Mg(OH)2', 'Fe2.5O', 'He', 'U', '(H)', 'Ca5(PO4)3F', 'C6H12O6', '(NH4)2SO4', 'K4(Fe(CN)6)', 'H.5O',
          'Al2(SO4)3', 'CuSO4(H2O)5', 'Rf', '((H2)3O)0.5', 'NaCl', 'Pb(C2H3O2)2', 'UO2(NO3)2(H2O)6', 'SiO2', 'La1.85Sr.15CuO4']
@@ -107,7 +107,8 @@ def agree(line, c, m, stats):
         if pc['n'] != pm['n'] or pc['els'] != pm['els']: return False
         exact = line.startswith('parse ') and '.' not in line.split(' ')[2]
         for a, b in zip(pc['ns'], pm['ns']):
-            if exact and not (isinstance(b, Fraction) and a == float(b) and Fraction(a) == b): return False
+            # integer subscripts below 2^53: the double arithmetic is exact, so is the comparison
+            if exact and isinstance(b, Fraction) and b.denominator == 1 and b < 2 ** 53 and Fraction(a) != b: return False
             if not num_close(a, b, 1e-13, stats): return False
         for a, b in zip(pc['fr'] + [pc['all'], pc['mm']], pm['fr'] + [pm['all'], pm['mm']]):
             if not num_close(a, b, 1e-13, stats): return False
@@ -249,7 +250,7 @@ class Run:
             out.append('s2z ' + G.esc(s.encode()))
             out.append('s2z ' + G.esc(s.lower().encode())); out.append('s2z ' + G.esc(s.upper().encode()))
             out.append('s2z ' + G.esc((s + 'x').encode())); out.append('s2z ' + G.esc(s[:1].encode()))
-        out += ['s2z %', 's2z %20', 's2z Uu', 's2z H%00']
+        out += ['s2z %', 's2z %20', 's2z Uu', 's2z H%20', 's2z %E9']
         def dec(lo, hi, k):
             return G.dec_text(Fraction(r.randint(lo * 10 ** k, hi * 10 ** k), 10 ** k))
         def cd(asc=True):
